@@ -130,6 +130,36 @@ impl Exec {
         out + vol as u64 <= PMAX as u64 && m.trade_vol as u64 + vol as u64 <= PMAX as u64
     }
 
+    /// The same bounds for an order that is created AND placed now: what counts towards its own side is only what will
+    /// rest after it has traded against the volume it crosses (a large order that executes at once is a valid request even
+    /// if its own side is nearly full).
+    fn vol_ok_placed(&self, a: usize, bid: bool, vol: u32, price: Option<u32>) -> bool {
+        let m = &self.models[a];
+        let crossable: u64 = if !self.trading_a[a] {
+            0
+        } else {
+            m.orders
+                .iter()
+                .filter(|o| o.o.bid != bid && o.o.status == ACTIVE)
+                .filter(|o| match price {
+                    None => true,
+                    Some(p) => {
+                        if bid {
+                            o.o.price <= p
+                        } else {
+                            o.o.price >= p
+                        }
+                    }
+                })
+                .map(|o| o.o.vol as u64)
+                .sum()
+        };
+        let trades = crossable.min(vol as u64);
+        let rests = if price.is_none() { 0 } else { vol as u64 - trades };
+        let out: u64 = m.orders.iter().filter(|o| o.o.bid == bid && (o.o.status == NEW || o.o.status == ACTIVE)).map(|o| o.o.vol as u64).sum();
+        out + rests <= PMAX as u64 && m.trade_vol as u64 + trades <= PMAX as u64
+    }
+
     fn price_ok_create(&self, a: usize, price: Option<u32>, place: bool) -> bool {
         match price {
             None => true,
@@ -169,7 +199,8 @@ impl Exec {
                 if *a >= assets || *vol == 0 || !self.price_ok_create(*a, *price, place) {
                     return None;
                 }
-                if !self.vol_ok(*a, *bid, *vol, None) {
+                let ok = if place && price.map(|p| p % self.tick_of(*a) == 0).unwrap_or(true) { self.vol_ok_placed(*a, *bid, *vol, *price) } else { self.vol_ok(*a, *bid, *vol, None) };
+                if !ok {
                     return None;
                 }
                 if place && self.cfg.discipline {
